@@ -1,17 +1,36 @@
 //go:build verif
 
 // Package vsched is the controlled scheduler injected into the repository module by `go build -overlay` (DESIGN §3
-// C06). Logical threads are goroutines parked on OS pipes; the scheduler wakes exactly one at a time, so an execution
-// is fully determined by its choice vector. The hand-off uses RAW read/write system calls, which the race detector
-// does not model, and every function here is //go:norace: the detector therefore sees only the program's own
-// synchronisation.
+// C06). Logical threads are goroutines; exactly one of them (or the scheduler) owns the "turn" at any time and all the
+// others yield (runtime.Gosched) until the turn is theirs, so an execution is fully determined by its choice vector.
+// The turn is a PLAIN variable touched only by //go:norace functions: the race detector neither sees the accesses nor
+// derives any happens-before edge from the hand-off (Gosched creates none), so it sees only the program's own
+// synchronisation. The workers run with GOMAXPROCS=1, where a hand-off is a goroutine switch (no system call; the
+// first version parked threads on OS pipes with raw read/write calls, which cost ~5 ms per execution under load).
+// VF_SX_HANDOFF=pipe selects that older mechanism (kept for cross-checking the two against each other).
 package vsched
 
 import (
+	"os"
+	"runtime"
 	"sync/atomic"
 	"syscall"
 	"unsafe"
 )
+
+// turn: id of the logical thread that may run, or schedTurn for the scheduler loop (plain variable, see above).
+var turn int
+
+const schedTurn = -7
+
+var usePipes = os.Getenv("VF_SX_HANDOFF") == "pipe"
+
+//go:norace
+func waitTurn(id int) {
+	for turn != id {
+		runtime.Gosched()
+	}
+}
 
 // Point kinds.
 const (
@@ -132,8 +151,13 @@ func Point(kind int) {
 	}
 	me := cur
 	me.lastKind(kind)
-	rawWrite(schedW)
-	rawRead(me.rfd)
+	if usePipes {
+		rawWrite(schedW)
+		rawRead(me.rfd)
+		return
+	}
+	turn = schedTurn
+	waitTurn(me.id)
 }
 
 var lastKind int
@@ -232,17 +256,23 @@ func Run(choicePrefix []int, bodies []func()) *Exec {
 	if active {
 		panic("vsched: nested Run")
 	}
-	exec = &Exec{Points: make([]PointRec, 0, 8192)}
+	exec = &Exec{Points: make([]PointRec, 0, 256)}
 	prefix = choicePrefix
 	for i := range holdPtr {
 		holdPtr[i] = nil
 	}
 	problem = ""
 	gen++
-	schedR, schedW = pipe()
+	if usePipes {
+		schedR, schedW = pipe()
+	}
+	turn = schedTurn
 	threads = threads[:0]
 	for i, b := range bodies {
-		r, w := pipe()
+		r, w := -1, -1
+		if usePipes {
+			r, w = pipe()
+		}
 		t := &thread{id: i, rfd: r, wfd: w}
 		threads = append(threads, t)
 		body := b
@@ -280,17 +310,24 @@ func Run(choicePrefix []int, bodies []func()) *Exec {
 		next := threads[enabled[c]]
 		cur = next
 		running = next.id
-		rawWrite(next.wfd) // wake it
-		rawRead(schedR)    // wait until it yields (Point) or finishes
+		if usePipes {
+			rawWrite(next.wfd) // wake it
+			rawRead(schedR)    // wait until it yields (Point) or finishes
+		} else {
+			turn = next.id
+			waitTurn(schedTurn)
+		}
 	}
 	active = false
 	cur = nil
-	for _, t := range threads {
-		syscall.Close(t.rfd)
-		syscall.Close(t.wfd)
+	if usePipes {
+		for _, t := range threads {
+			syscall.Close(t.rfd)
+			syscall.Close(t.wfd)
+		}
+		syscall.Close(schedR)
+		syscall.Close(schedW)
 	}
-	syscall.Close(schedR)
-	syscall.Close(schedW)
 	exec.Problem = problem
 	for _, t := range threads {
 		joinThread(t)
@@ -309,11 +346,19 @@ func finishThread(t *thread) { t.fin.Store(1) }
 
 //go:norace
 func threadMain(t *thread, body func()) {
-	rawRead(t.rfd) // wait for the first wake-up
+	if usePipes {
+		rawRead(t.rfd) // wait for the first wake-up
+	} else {
+		waitTurn(t.id)
+	}
 	runBody(body)
 	finishThread(t)
 	t.done = true
-	rawWrite(schedW)
+	if usePipes {
+		rawWrite(schedW)
+	} else {
+		turn = schedTurn
+	}
 }
 
 func runBody(body func()) { body() }
